@@ -124,6 +124,12 @@ def materialize(s):
             for _ in range(depth):
                 v = [v] if kind == "list" else {"a": v}
             return v
+        if "deep2" in s:                    # a binary spine of two-element lists (side left | right), built iteratively
+            side, depth, leaf = s["deep2"]
+            v = materialize(leaf)
+            for _ in range(depth):
+                v = [v, materialize(leaf)] if side == "left" else [materialize(leaf), v]
+            return v
         if "rep" in s:
             o, n, mid, c = s["rep"]
             return o * n + mid + c * n
